@@ -202,11 +202,14 @@ pub struct Faults {
     pub inline: Vec<(u32, Vec<Op>)>,
     /// Invocation indices of the payload's `Clone` impl (run by `make_mut`) that panic.
     pub clone_panic_at: Vec<u32>,
+    /// Destructor positions at which the destructor panics at its start (what it owns
+    /// is released during the unwind).
+    pub panic_early_at: Vec<u32>,
 }
 
 impl Faults {
     pub fn is_empty(&self) -> bool {
-        self.panic_at.is_empty() && self.scripts.is_empty() && self.inline.is_empty() && self.clone_panic_at.is_empty()
+        self.panic_at.is_empty() && self.scripts.is_empty() && self.inline.is_empty() && self.clone_panic_at.is_empty() && self.panic_early_at.is_empty()
     }
     pub fn text(&self) -> String {
         let mut parts = vec![];
@@ -215,6 +218,9 @@ impl Faults {
         }
         for k in &self.clone_panic_at {
             parts.push(format!("clonepanic {k}"));
+        }
+        for k in &self.panic_early_at {
+            parts.push(format!("earlypanic {k}"));
         }
         for (k, ops) in &self.scripts {
             parts.push(format!("script {k}:{}", ops.iter().map(|o| o.text()).collect::<Vec<_>>().join(",")));
@@ -226,6 +232,8 @@ impl Faults {
         for part in t.split('|').map(str::trim).filter(|s| !s.is_empty()) {
             if let Some(k) = part.strip_prefix("panic ") {
                 f.panic_at.push(k.trim().parse().map_err(|e| format!("{part}: {e}"))?);
+            } else if let Some(k) = part.strip_prefix("earlypanic ") {
+                f.panic_early_at.push(k.trim().parse().map_err(|e| format!("{part}: {e}"))?);
             } else if let Some(k) = part.strip_prefix("clonepanic ") {
                 f.clone_panic_at.push(k.trim().parse().map_err(|e| format!("{part}: {e}"))?);
             } else if let Some(rest) = part.strip_prefix("script ") {
